@@ -18,7 +18,9 @@ Definition pcls_code (c : pcls) : nat :=
   | PK KOther => 8 | PK KLaws => 9 | PTwoEnded => 10 | PLink => 11 | PBase => 12 | PObject => 13 | PNoneType => 14
   end.
 
-Inductive rqry := RPlain (u : nat) (sorted : bool) | RPyvis (u : nat) | RPuml (u : nat) (conf : nat).
+(* merged: an rfunc that is NOT injective (vertices rendered by the parity of their id) *)
+Definition std_r_merged (v : node) : string := match v with Some x => "w" ++ dec (x mod 2) | None => "None" end.
+Inductive rqry := RPlain (u : nat) (sorted : bool) (merged : bool) | RPyvis (u : nat) | RPuml (u : nat) (conf : nat).
 Inductive rans :=
   | AText (o : option string)
   | ANet (nodes : list (nat * nat)) (edges : list (nat * nat * bool))
@@ -39,8 +41,8 @@ Fixpoint lex_insert (x : list nat) (l : list (list nat)) : list (list nat) :=
 Definition lex_sort (l : list (list nat)) : list (list nat) := fold_right lex_insert [] l.
 Definition run_rq (s : state) (q : rqry) : rans :=
   match q with
-  | RPlain u sorted =>
-      match basic_render std_filt std_r (if sorted then Some std_key else None) s u with
+  | RPlain u sorted merged =>
+      match basic_render std_filt (if merged then std_r_merged else std_r) (if sorted then Some std_key else None) s u with
       | POk o => AText o | PErr e => ARaise e end
   | RPyvis u => match make_pyvis_net s u with VOk n => ANet (pnodes n) (pedges n) | VErr e => ARaise e end
   | RPuml u c =>
